@@ -521,6 +521,15 @@ def stream_cdedb_read(seed, tier, workdir, stream):
         what = None
         if i % 4 == 3:
             what = corrupt_export(r, doc, opts, info)
+        elif i % 20 == 6:
+            # ids written with a leading plus sign or zero (`u64::from_str` accepts both): another key
+            # order, the same numbers
+            for coll in ("registrations", "courses"):
+                ks = list(doc[coll].keys())
+                k = r.choice(ks)
+                nk = r.choice(["+", "0", "00"]) + k
+                if nk not in doc[coll]:
+                    doc[coll][nk] = doc[coll].pop(k)
         cases.append({"doc": doc, "opts": opts, "info": info, "corruption": what})
     return cases
 
@@ -569,7 +578,7 @@ def lines_cdedb_read(cases, workdir, stream):
                     t = str(c["info"]["sel_track"]); sp = str(c["info"]["sel_part"])
                     probs = []
                     for ci, cid in enumerate(kept):
-                        cd = c["doc"]["courses"][str(cid)]
+                        cd = next(v for k, v in c["doc"]["courses"].items() if int(k) == cid)
                         mx = cd.get("max_size") if isinstance(cd.get("max_size"), int) else 25
                         mn = cd.get("min_size") if isinstance(cd.get("min_size"), int) else 0
                         att = ins = 0
@@ -599,7 +608,20 @@ def stream_cdedb_pairs(seed, tier, workdir, stream):
     cases = []
     for i in range(n):
         doc, opts, info = gen_export(r)
-        twin, edits = irrelevant_edits(r, doc, opts, info)
+        if i % 8 == 5 and len(info["tracks"]) > 1:
+            # several tracks and none selected: refused whatever the OTHER tracks contain — here they
+            # contain no course at all in the base document and get one in the twin
+            opts = dict(opts, track=None)
+            for c in doc["courses"].values():
+                for o in list(c["segments"].keys()):
+                    if o != str(info["sel_track"]):
+                        del c["segments"][o]
+            twin, edits = irrelevant_edits(r, doc, opts, info)
+            o = str(r.choice([x for x in info["tracks"] if x != info["sel_track"]]))
+            r.choice(list(twin["courses"].values()))["segments"][o] = True
+            edits = edits + ["other-seg-first"]
+        else:
+            twin, edits = irrelevant_edits(r, doc, opts, info)
         cases.append({"doc": doc, "twin": twin, "opts": opts, "info": info, "edits": edits})
     return cases
 
@@ -851,6 +873,22 @@ def stream_cli_simple(seed, tier, workdir, stream):
                       "stale": r.random() < 0.3, "output": r.random() < 0.9})
         # the default worker count on a machine where the process sees a single CPU
         cases[-1]["pin"] = cases[-1]["threads"] is None and r.random() < 0.6
+        cases[-1]["rooms_file"] = rooms is not None and r.random() < 0.35
+    # a rooms file in which two kinds of different capacity share a name, the larger one first, and
+    # rooms that are just sufficient: reading the file must not merge the two
+    for _ in range(scale(tier, 6, 60)):
+        f = r.randint(5, 7); big = f + 2
+        courses = [{"name": f"K{i}", "num_max": big, "num_min": 0, "instructors": []} for i in range(3)]
+        parts = []
+        for c in range(3):
+            for j in range(f):
+                o = [x for x in range(3) if x != c]; r.shuffle(o)
+                parts.append({"name": f"P{c}.{j}", "choices": [{"course": c, "penalty": 0}, {"course": o[0], "penalty": 1}, {"course": o[1], "penalty": 2}]})
+        rooms = [big, 3 * f - big - (f), f]          # e.g. f = 6: 8, 4, 6 — together exactly 3f places
+        kinds = [{"name": "Seminarraum", "capacity": rooms[0], "quantity": 1}, {"name": "Saal", "capacity": rooms[1], "quantity": 1},
+                 {"name": "Seminarraum", "capacity": rooms[2], "quantity": 1}]
+        cases.append({"doc": {"format": "X-coursedata-simple", "version": "1.0", "participants": parts, "courses": courses},
+                      "rooms": rooms, "rooms_file": True, "kinds": kinds, "threads": r.choice([1, 2]), "print": r.random() < 0.5, "stale": False, "output": True})
     # very large instances: several hundred participants (f32 effects in the quality figures)
     for _ in range(scale(tier, 2, 8)):
         np_ = r.randint(340, 520)
@@ -915,7 +953,18 @@ def lines_cli_simple(cases, workdir, stream, binary):
             args = []
             if c["threads"] is not None:
                 args += ["--num-threads", str(c["threads"])]
-            if c["rooms"] is not None:
+            if c["rooms"] is not None and c.get("rooms_file"):
+                # the same rooms as a rooms file: one entry per capacity run, the same two kind NAMES used
+                # for different capacities ("Seminarraum" in two buildings), in the given order
+                kinds = list(c.get("kinds") or [])
+                for j, cap in enumerate([] if kinds else c["rooms"]):
+                    if kinds and kinds[-1]["capacity"] == cap and j % 3 != 0:
+                        kinds[-1]["quantity"] += 1
+                    else:
+                        kinds.append({"name": ["Seminarraum", "Saal"][len(kinds) % 2], "capacity": cap, "quantity": 1})
+                json.dump(kinds, open(os.path.join(d, "rooms.json"), "w"))
+                args += ["--rooms-file", os.path.join(d, "rooms.json")]
+            elif c["rooms"] is not None:
                 args += ["--rooms", ",".join(map(str, c["rooms"]))]
             if c["print"]:
                 args.append("--print")
@@ -1004,7 +1053,7 @@ def lines_cli_simple(cases, workdir, stream, binary):
                     payload = json.dumps({"inst": inst_text(c["doc"], c["rooms"]), "a": fmt_assign(a), "names": names,
                                           "rooms": [x[2] for x in lst] if c["rooms"] is not None else None}, ensure_ascii=False)
                     out.append(line("corr", ["C14"], "L", payload, json.dumps(so[len("The assignment is:\n"):], ensure_ascii=False), case=i, stream=stream))
-                    if c["rooms"] is not None:
+                    if c["rooms"] is not None and not c.get("rooms_file"):
                         payload = json.dumps({"inst": inst_text(c["doc"], c["rooms"]), "a": fmt_assign(a), "rooms": c["rooms"], "listed": [x[2] for x in lst]})
                         out.append(line("spec", ["C18"], "RL", payload, "sound=true nonempty=true", case=i, stream=stream))
     finally:
